@@ -135,7 +135,7 @@ def handle (line : String) : String :=
       let o := sniffTcp script
       let (rel, en) := relayBytes o d
       let intact := rel == clientBytes script && en == clientEnd script
-      s!"res={tcpResStr o.buf o.result} nm={boolStr (o.needMoreSeen && !o.result.toBool)} buf={o.buf.length} derr={optErr o.dataError} armed=0 relay={hx rel} end={optErr en} intact={boolStr intact}"
+      s!"res={tcpResStr o.buf o.result} nm={boolStr (o.needMoreSeen && !o.result.toBool)} buf={o.buf.length} armed=0 relay={hx rel} end={optErr en} intact={boolStr intact} # derr={optErr o.dataError}"
     | _, _ => "bad-op"
   | ["frames", offs, h] =>
     match parseBlocks offs, unhx h with
@@ -161,15 +161,15 @@ def handle (line : String) : String :=
   | ["udp", orc, dgs] =>
     match parseOracle orc, (dgs.splitOn ",").mapM unhx with
     | some o, some ds =>
-      let (st, outs) := ds.foldl (fun (acc : Pkt × List String) d =>
+      let (st, outs) := ds.foldl (fun (acc : Pkt × (List String × List String)) d =>
         let s1 := acc.1.append d
         let (r, s2) := s1.sniffUdp o
         let rs := match r, extractSni (newLinear s2.cryptos) with
           | .ok _, .ok raw => if nonAscii raw then "nonascii" else resStr r
           | _, _ => resStr r
-        (s2, acc.2 ++ [s!"{rs}/{boolStr s2.needMore}/{s2.nextRead}/{s2.cryptos.length}"])) (({} : Pkt), [])
+        (s2, (acc.2.1 ++ [s!"{rs}/{boolStr s2.needMore}"], acc.2.2 ++ [s!"{s2.nextRead}/{s2.cryptos.length}"]))) (({} : Pkt), ([], []))
       let intact := st.data == [[]] ++ ds
-      " ".intercalate outs ++ s!" intact={boolStr intact}"
+      " ".intercalate outs.1 ++ s!" intact={boolStr intact} # " ++ " ".intercalate outs.2
     | _, _ => "bad-op"
   | _ => "bad-op"
 
